@@ -7,7 +7,10 @@ from dsim.runner import Result, finish, run_guarded
 
 ID = "C19"
 TITLE = "Resource requests map pins one-to-one and constraints name the right pin"
-RULE = ("case = (platform family in {iCE40/.pcf, ECP5-Trellis/.lpf, Gowin-Apicula/.cst, Xilinx-X-Ray/.xdc, QuickLogic/.pcf+.sdc}, generated resource table with Pins, "
+RULE = ("case = (platform family / toolchain in {iCE40-IceStorm/.pcf, iCE40-iCECube2/.pcf+.sdc, ECP5-Trellis/.lpf, MachXO2-Diamond/.lpf+.sdc, "
+        "Nexus-Oxide/.pdc, Nexus-Radiant/.pdc+.sdc, Gowin-Apicula/.cst, Gowin-IDE/.cst+.sdc, Xilinx-X-Ray/.xdc, Xilinx-Vivado/.xdc, "
+        "Xilinx-ISE/.ucf, Xilinx-Symbiflow/.pcf+.sdc, Altera-Quartus/.qsf+.sdc, Altera-Mistral/.qsf, QuickLogic/.pcf+.sdc}, "
+        "generated resource table with Pins, "
         "PinsN, DiffPairs, nested Subsignals, Attrs, Clocks, connectors and chains of connectors, deliberately overlapping "
         "pins; a history of <= 25 request operations including refusals placed after partial progress: duplicates, unknown "
         "resources, pin conflicts on a late pin of a late subsignal, illegal direction changes, bad xdr; then a build of a "
@@ -19,7 +22,9 @@ RULE = ("case = (platform family in {iCE40/.pcf, ECP5-Trellis/.lpf, Gowin-Apicul
 ASSUMPTIONS = [
     "Pin-owner model (dict) is the reference for grant/refuse; 'history minus refused operations on a fresh platform' is "
     "the reference for atomicity (same outcomes, same constraint file, same RTLIL port list).",
-    "Constraint files are read with small regex parsers for the three open-toolchain templates that render offline.",
+    "Constraint files are read with small regex parsers, one per constraint syntax (all templates render offline once the Verilog "
+    "outputs, which need yosys, are taken out of the plan). A create_clock whose -name was used before in the same file replaces "
+    "the earlier clock (SDC semantics): clock names must be unique per file.",
     "Clock frequencies are compared with relative tolerance 1e-6 (Period is integer femtoseconds). A constrained internal net is "
     "named by the '.'-joined path (below the top module) of a module in which the net exists - the driving module, a reading "
     "module or one in between are all accepted - followed by the signal's name, and a wire of that name must exist in that "
